@@ -131,9 +131,11 @@ pub fn gen(seed: u64, n: usize, _tier: &str) -> Vec<Case> {
         c(&[b"XREADGROUP", b"GROUP", b"g", b"c2", b"COUNT", b"0", b"STREAMS", k, b">"]),      // returns nothing
         c(&[b"XREADGROUP", b"GROUP", b"g", b"c1", b"STREAMS", k, b"0"]),                        // the owner reads its history: entries
         c(&[b"XREADGROUP", b"GROUP", b"g", b"c1", b"STREAMS", k, b"5-0"]),                      // ... nothing above the ID
-        c(&[b"XREADGROUP", b"GROUP", b"g", b"c2", b"STREAMS", k, b"0"]),                        // registers c2, returns nothing (group-reread-unmarked)
-        c(&[b"XREADGROUP", b"GROUP", b"g", b"c2", b"STREAMS", o, k, b">", b">"]),               // another key first
-        c(&[b"XREADGROUP", b"GROUP", b"g", b"c2", b"STREAMS", k, b"nokey", b">", b"bad"]),      // a missing key is skipped
+        c(&[b"XREADGROUP", b"GROUP", b"g", b"c2", b"STREAMS", k, b"0"]),                        // registers c2, returns nothing: marked since cc8be72
+        c(&[b"XREADGROUP", b"GROUP", b"g", b"c1", b"COUNT", b"0", b"STREAMS", k, b"0"]),        // COUNT 0 = no limit (cc6cf30)
+        c(&[b"XREADGROUP", b"GROUP", b"g", b"c2", b"STREAMS", k, b"18446744073709551615-18446744073709551615"]),   // registers c2 only (7d40622)
+        c(&[b"XREADGROUP", b"GROUP", b"g", b"c2", b"STREAMS", o, k, b">", b">"]),               // a missing key first: NOGROUP, nothing delivered (d9160ac)
+        c(&[b"XREADGROUP", b"GROUP", b"g", b"c2", b"STREAMS", k, b"nokey", b">", b"bad"]),      // a missing key after it: NOGROUP
         c(&[b"XREADGROUP", b"GROUP", b"nogroup", b"c2", b"STREAMS", k, b">"]),
         c(&[b"XACK", k, b"g", b"5-0"]), c(&[b"XACK", k, b"g", b"6-0"]), c(&[b"XACK", k, b"nogroup", b"5-0"]), c(&[b"XACK", k, b"g", b"5-"]),
         c(&[b"XCLAIM", k, b"g", b"c2", b"0", b"5-0"]), c(&[b"XCLAIM", k, b"g", b"c2", b"0", b"99-0"]), c(&[b"XCLAIM", k, b"g", b"c2", b"1000000", b"5-0"]),
